@@ -177,6 +177,11 @@ def make_callables(shape, entered, partials=True):
     named = ns['C']()
     named.__name__ = 'named_instance'
     out.append(('instance-named', named, 'instance with an attribute __name__ and __call__(self, %s)' % shape.params()))
+    # a function decorated with functools.wraps whose wrapper (this shape) and wrapped function have different signatures:
+    # python binds a call by the wrapper, inspect.signature() reports the wrapped one
+    exec("def other(q, *, only_of_wrapped):\n    return None\n" + src.split('class C')[0].replace('def f(', 'def fw('), ns)
+    fw = functools.wraps(ns['other'])(ns['fw'])
+    out.append(('wraps', fw, 'functools.wraps(other)(f) with def f(%s) and def other(q, *, only_of_wrapped)' % shape.params()))
     if partials:
         try:
             out.append(('partial-of-instance', functools.partial(inst, Tok('fixed0')), 'partial(obj, <1 fixed>) of an instance with __call__(self, %s)' % shape.params()))
